@@ -154,6 +154,26 @@ func vxNote(s string) {
 	fmt.Println("VXNOTE " + s)
 }
 
+func vxEmit(s string) {
+	fmt.Println("VXOUT " + s)
+}
+
+func vxListing() []string {
+	var out []string; filepath.Walk(".", func(p string, fi os.FileInfo, err error) error { if p != "." { out = append(out, p) }; return nil }); return out
+}
+
+func vxNVFile(path string) {
+	os.WriteFile(path, []byte("data\n"), 0644)
+}
+
+func vxNVLines(path string, lines []string) {
+	os.WriteFile(path, []byte(strings.Join(lines, "\n")+"\n"), 0644)
+}
+
+func vxFileLines(path string) []string {
+	b, err := os.ReadFile(path); if err != nil { return nil }; t := strings.TrimSuffix(string(b), "\n"); if t == "" { return nil }; return strings.Split(t, "\n")
+}
+
 func vxOr(a, b bool) bool {
 	return a || b
 }
@@ -238,6 +258,10 @@ func vxPreemptBudget(n int) {
 	
 }
 
+func vxPreemptAtFS(on bool) {
+	
+}
+
 func vxMapOrder(funcs string) {
 	
 }
@@ -279,7 +303,11 @@ func vxCmdFree(writes, exit bool) {
 }
 
 func vxKillAt(k int) {
-	panic("vxKillAt: environment-model function, not available in native replay")
+	
+}
+
+func vxKillAtDesc(substr string) {
+	
 }
 
 func vxOps() int {
